@@ -61,6 +61,7 @@ KIND_CORPUS = [
     ("snippet", 'set req.http.A = "x";'), ("snippet", 'set var.i += 10;'), ("snippet", 'add resp.http.Set-Cookie = "a" "b";'),
     ("snippet", 'unset req.http.A;'), ("snippet", 'remove req.http.A;'), ("snippet", 'declare local var.s STRING;'),
     ("snippet", 'call f;'), ("snippet", 'call f(1, "a", req.http.B);'), ("snippet", 'error;'), ("snippet", 'error 404;'),
+    ("snippet", 'error "x";'),      # rejected by the parser today; if it were accepted the AST (no code, an argument) is outside wf
     ("snippet", 'error 601 "x" + req.url;'), ("snippet", 'esi;'), ("snippet", 'log "a" req.url 10 1.5 10s true;'), ("snippet", 'restart;'),
     ("snippet", 'return;'), ("snippet", 'return (lookup);'), ("snippet", 'return var.s;'), ("snippet", 'synthetic {"x"};'),
     ("snippet", 'synthetic.base64 "eA==";'), ("snippet", 'std.log("a", 1);'), ("snippet", 'goto l1;\nl1:\n'), ("snippet", 'include "m";'),
@@ -209,7 +210,7 @@ HEAD_TYPE = {
     "goto": "GotoStatement", "gotodest": "GotoDestinationStatement", "funcall": "FunctionCallStatement",
     "break": "BreakStatement", "fallthrough": "FallthroughStatement", "case": "CaseStatement",
 }
-NOT_LINTABLE = {"BreakStatement", "FallthroughStatement", "CaseStatement"}
+NOT_LINTABLE = {"BreakStatement", "FallthroughStatement", "CaseStatement"}   # replaced in run() by: statement types outside the regenerated union
 # statement nodes (*Linter).lint is never handed (lintCaseStatement / lintIfStatement walk them directly;
 # include statements are replaced by resolveIncludeStatements before the statements of a block are linted)
 E2E_NOT_VISITED = ("BreakStatement", "FallthroughStatement", "CaseStatement", "IfStatement(", "IncludeStatement")
@@ -248,11 +249,11 @@ def lint_statement_types():
     return re.findall(r'"([^"]*)"', m.group(1)) if m else []
 
 
-def expected_plug(ast):
+def expected_plug(ast, not_lintable):
     """what every instantiation of ReadLinterRequest must answer on Encode(s), from s alone"""
     import re
     k = HEAD_TYPE.get(re.match(r"\((\w+)", ast).group(1), "?")
-    if k in NOT_LINTABLE:
+    if k in not_lintable:
         return "none | rest type:" + k
     return "ok %s %s | rest type:%s" % (k, ast, k)
 
@@ -312,6 +313,15 @@ def run(ctx):
             sources.append(("snippet", g.snippet().encode(), "gen-snippet-%d" % i))
         else:
             sources.append(("vcl", g.program().encode(), "gen-vcl-%d" % i))
+    # --replay <file>: only the recorded program / byte string (the seeded corpus run is reproducible from the seed anyway)
+    rp = None
+    if ctx.replay:
+        import json
+        rp = json.load(open(ctx.replay)).get("replay", {})
+        if rp.get("source_hex"):
+            sources = [(rp.get("mode", "snippet"), bytes.fromhex(rp["source_hex"]), "replay")]
+        elif rp.get("bytes_hex") is not None:
+            sources = [(m, src.encode(), "kind-%d" % i) for i, (m, src) in enumerate(KIND_CORPUS)]
     reqs = ["src %s %s" % (m, s.hex()) for m, s, _ in sources]
     irep = V.run_batch(impl, reqs, hang_s=10)
 
@@ -391,6 +401,9 @@ def run(ctx):
     # ---------------- decoder totality + correspondence on arbitrary bytes
     n_mut = 120000 if thorough else 14000
     byte_cases = [(h, lab) for h, lab in corpus_bytes()]
+    if rp and rp.get("bytes_hex") is not None:
+        byte_cases.append((rp["bytes_hex"], "replay"))
+        n_mut = 0
     byte_cases += [(h, "valid") for h in valid_encs[:2000]]
     small = [h for h in valid_encs if len(h) < 1200] or valid_encs
     mk = {}
@@ -430,6 +443,7 @@ def run(ctx):
     pimpl = [os.path.join(V.BUILD, "implrun"), "codecplug"]
     readers = (V.run_batch(pimpl, ["readers"], hang_s=10)[0] or "").split()
     union = lint_statement_types()
+    not_lintable = set(HEAD_TYPE.values()) - set(union)     # statically: NOT_LINTABLE (theorem C19_plugin_kinds, last clause)
     if readers != union:
         ctx.violation("the LintStatement union of plugin/linter.go is not the set of ReadLinterRequest instantiations the harness runs",
                       {"no_failing_input": True, "union": union, "harness": readers})
@@ -489,9 +503,9 @@ def run(ctx):
         k = HEAD_TYPE.get(_re.match(r"\((\w+)", a).group(1), "?")
         plug_kinds[k] = plug_kinds.get(k, 0) + 1
         # direct oracle on the implementation: every instantiation of ReadLinterRequest on Encode(s)
-        if iplug != expected_plug(a):
+        if iplug != expected_plug(a, not_lintable):
             ctx.violation("plugin.ReadLinterRequest on Encoder.Encode(s): expected the statement for T = %s and a type error for every other T (%s)" % (k, lab),
-                          dict(replay, bytes_hex=enc1[:2000], got=(iplug or "")[:2000], expected=expected_plug(a)[:2000]),
+                          dict(replay, bytes_hex=enc1[:2000], got=(iplug or "")[:2000], expected=expected_plug(a, not_lintable)[:2000]),
                           big or {"kind": "plugin-roundtrip"})
         else:
             plug_oracle_ok += 1
@@ -502,8 +516,8 @@ def run(ctx):
             plug_agree += 1
         if len(enc1) < 500 and (k not in single_encs or len(enc1) > len(single_encs[k])) and not big:
             single_encs[k] = enc1
-    for k in union + sorted(NOT_LINTABLE):
-        if plug_kinds.get(k, 0) == 0:
+    for k in sorted(set(HEAD_TYPE.values())):
+        if plug_kinds.get(k, 0) == 0 and not rp:
             ctx.violation("no statement of kind %s reached the plugin-path correspondence (generator / corpus lost a kind)" % k,
                           {"no_failing_input": True, "kinds": plug_kinds})
     # ReadLinterRequest on arbitrary bytes: mutants of one single-statement encoding per kind + a sample of the decoder inputs
@@ -522,9 +536,18 @@ def run(ctx):
         for _ in range(400 if thorough else 30):
             pbytes.append(mutate(rng, h, donors))
     pbytes += rng.sample(byte_cases, min(len(byte_cases), 20000 if thorough else 1500))
+    if rp and rp.get("bytes_hex") is not None:
+        pbytes = [(rp["bytes_hex"], "replay")]
     pbytes = list(dict.fromkeys(pbytes))
     preq = ["plug " + h for h, _ in pbytes]
-    iprep, mprep = both(lambda: par_batch(pimpl, preq, 6, hang_s=5),
+    # a decoder that already hung / died in the Decode stage would make every chunk wait for its watchdog again
+    # (same decoder underneath): the finding is recorded, keep this stage short
+    decoder_stuck = sum(1 for r in irep2 if r is None or r.startswith(("hang", "died", "skipped"))) > 0
+    if decoder_stuck:
+        pbytes = pbytes[:400]
+        preq = preq[:400]
+    iprep, mprep = both(lambda: (V.run_batch(pimpl, preq, hang_s=5, max_failures=2, confirm_hangs=False) if decoder_stuck
+                                 else par_batch(pimpl, preq, 6, hang_s=5)),
                         lambda: par_batch([model], preq, 2, hang_s=60, mem_kb=8_000_000))
     plug_out = {"request": 0, "decode": 0, "empty": 0, "type": 0}
     plug_bytes_agree = 0
@@ -559,6 +582,8 @@ def run(ctx):
     rest_e2e = [(s_, lab) for (s_, lab) in vcl_src if not lab.startswith(("kind-", "corpus/"))]
     e2e = [("inject", s_, lab) for s_, lab in fixed_e2e + rng.sample(rest_e2e, min(len(rest_e2e), 600 if thorough else 45))]
     e2e += [("text", s_, "e2e-text-%d" % i) for i, s_ in enumerate(E2E_TEXT)]
+    if rp and rp.get("e2e") and rp.get("source_hex"):
+        e2e = [(rp["e2e"], bytes.fromhex(rp["source_hex"]), "replay")]
     env = dict(os.environ, VERIF_PLUGIN_DIR=pdir)
     erep = par_batch(pimpl, ["e2e %s %s" % (md, s_.hex()) for md, s_, _ in e2e], 6, min_n=8, hang_s=60, env=env)
     e2e_calls = e2e_expected = e2e_progs = 0
@@ -570,7 +595,7 @@ def run(ctx):
             continue
         if rep.startswith("parseerr"):
             continue
-        mm = _re.match(r"e2e calls (\d+) expected (\d+) extra (\d+) (\[.*\]) missing \[(.*?)\] fails (\d+) (\[.*\])$", rep)
+        mm = _re.match(r"e2e calls (\d+) expected (\d+) extra (\d+) (\[.*\]) missing \[(.*?)\] fails (\d+) (\[.*\]) unreadable \[(.*?)\]$", rep)
         if not mm:
             ctx.violation("unreadable e2e reply (%s)" % lab, {"reply": rep[:500]})
             continue
@@ -582,6 +607,10 @@ def run(ctx):
                           % (lab, mm.group(3), mm.group(6)),
                           {"mode": "vcl", "e2e": md, "source_hex": s_.hex()[:8000], "extra": mm.group(4)[:2000], "fails": mm.group(7)[:2000]},
                           {"kind": "plugin-e2e"})
+        if mm.group(8):
+            ctx.violation("linter.customLint started a plugin on a statement no instantiation of ReadLinterRequest accepts "
+                          "(its type is not in the LintStatement union): %s (%s)" % (", ".join(sorted(set(mm.group(8).split()))), lab),
+                          {"mode": "vcl", "e2e": md, "source_hex": s_.hex()[:8000], "types": mm.group(8)}, {"kind": "plugin-e2e-unreadable"})
         for item in mm.group(5).split():
             kk, _, nn = item.rpartition(":")
             e2e_missing[kk] = e2e_missing.get(kk, 0) + int(nn)
